@@ -64,6 +64,12 @@ def gen_history(rng, case, maxlen):
             ops += [["set_initial", call], [rng.choice(["sample", "solve", "value"])], ["set_initial", call2]]
             c.setdefault("calls", []).extend([call, call2])
             continue
+        if step == npre and "free" in c.get("T", {}) and rng.random() < 0.6:
+            # a new guess for the free horizon given to a transcribed (solved) OCP
+            v = jq(rng.choice([1, 2, Fraction(3, 2), Fraction(5, 2)]))
+            ops += [[rng.choice(["solve", "sample", "solve"])], ["set_initial_T", v]]
+            c["T"] = {"free": v}
+            continue
         if step == npre and objs0 and scalar_param_slots(c) and rng.random() < 0.5:
             # a query first (no guess mentions a parameter yet), then a guess that is an expression of a global
             # parameter given to the transcribed OCP, then a new value for that parameter: the start point follows
